@@ -104,7 +104,7 @@ fn det_run(w: &mut impl std::io::Write, run: usize, seed: u64, steps: usize) {
     let mut next_g = 0usize;
     let mut seedc = seed;
     let rounds = r.range(1, 4);
-    let x = |w: &mut dyn std::io::Write, kind: &str, msg: String| { writeln!(w, "X pool {kind} :: {msg}").unwrap(); };
+    let x = |w: &mut dyn std::io::Write, kind: &str, msg: String| { writeln!(w, "X pool {kind} :: {msg}").unwrap(); w.flush().unwrap(); };
     for round in 0..rounds {
         {
             let pool_ref: &Pool = &pool;
